@@ -1,5 +1,7 @@
 (* C08 property theorems, reductions (core.py): aten_all / aten_any (+ .dim, .dims), aten_argmax / aten_argmin, aten_prod /
-   aten_prod_dim_int, aten_logsumexp, the var / std family.  Statements only.
+   aten_prod_dim_int, aten_logsumexp, prims_var (prims.py, the registered variance) and the aten_var / aten_std helper family of core.py
+   (NOT registered with torch_op: modelled as code, outside the property's quantifier, not exercised by the harness).  Statements only.
+   `_fixed` theorems: the repaired code of proposed_fixes/ready/C08_*.diff, for every input PyTorch accepts.
 
    Shapes: the shape produced by the emitted Cast / Reshape / Reduce* / ArgMax / Squeeze composition (operator documents, Onnx.v /
    Onnx3.v) = ATen's result shape.  Values: all / any along one fiber (Cast BOOL, Cast INT64, ReduceMin | ReduceMax, Cast BOOL,
@@ -127,3 +129,47 @@ Print Assumptions C08_var_value_fixed.
 Theorem C08_var_count_fixed : forall s dims n, 0 < zlen s -> torch_var_count s dims = Some n -> aten_var_count_fixed s dims = Some n.
 Proof. exact var_count_fixed_correct. Qed.
 Print Assumptions C08_var_count_fixed.
+
+(* ------------------------------------------------------------------ repaired code (proposed_fixes/ready) *)
+Theorem C08_allany_dims_shape_fixed : forall s dims keepdim out,
+  torch_allany_shape s dims keepdim = Some out -> aten_allany_dims_shape_fixed s dims keepdim = Some out.
+Proof. exact allany_dims_shape_fixed_correct. Qed.
+Print Assumptions C08_allany_dims_shape_fixed.
+Theorem C08_argmax_shape_fixed : forall s dim keepdim out,
+  torch_argmax_shape s dim keepdim = Some out -> aten_argmax_shape_fixed s dim keepdim = Some out.
+Proof. exact argmax_fixed_correct. Qed.
+Print Assumptions C08_argmax_shape_fixed.
+Theorem C08_prod_dtype_fixed : forall t dtype, dtype <> Some 9 -> aten_prod_dtype_fixed t dtype = Some (torch_prod_dtype t dtype).
+Proof. exact prod_dtype_fixed_correct. Qed.
+Print Assumptions C08_prod_dtype_fixed.
+Theorem C08_prod_dim_shape_fixed : forall s dim keepdim out,
+  torch_reduce1_shape s dim keepdim = Some out -> aten_prod_dim_shape_fixed s dim keepdim = Some out.
+Proof. exact prod_dim_shape_fixed_correct. Qed.
+Print Assumptions C08_prod_dim_shape_fixed.
+
+(* ------------------------------------------------------------------ prims::var (registered) *)
+Theorem C08_prims_var_shape : forall s dims out, torch_prims_var_shape s dims = Some out -> prims_var_shape s dims = Some out.
+Proof. exact prims_var_shape_correct. Qed.
+Print Assumptions C08_prims_var_shape.
+Theorem C08_prims_var_count_partial : forall cf s dims n,
+  dims <> [] -> torch_prims_var_count s dims = Some n -> prims_var_count cf s dims = Some n.
+Proof. exact prims_var_count_partial. Qed.
+Print Assumptions C08_prims_var_count_partial.
+(* genuine defect: with dims = [] (e.g. torch.var of a 0-d tensor) and correction <> 0 the count is Gather(Shape(inp), None): tracing fails *)
+Theorem C08_prims_var_count_empty_dims_refuted : exists s n, torch_prims_var_count s [] = Some n /\ prims_var_count false s [] = None.
+Proof. exact prims_var_count_empty_dims_refuted. Qed.
+Print Assumptions C08_prims_var_count_empty_dims_refuted.
+Theorem C08_prims_var_count_fixed : forall s dims n, torch_prims_var_count s dims = Some n -> prims_var_count true s dims = Some n.
+Proof. exact prims_var_count_fixed_correct. Qed.
+Print Assumptions C08_prims_var_count_fixed.
+Theorem C08_prims_var_value_partial : forall ssd n c,
+  0 < n -> (c <= inject_Z n)%Q -> fval_eq (prims_var_val false ssd n n c) (torch_var_val ssd n c).
+Proof. exact prims_var_val_partial. Qed.
+Print Assumptions C08_prims_var_value_partial.
+Theorem C08_prims_var_correction_exceeds_count_refuted : exists ssd n c,
+  0 < n /\ torch_var_val ssd n c = Inf false /\ exists q, prims_var_val false ssd n n c = Fin q /\ (q < 0)%Q.
+Proof. exact prims_var_correction_exceeds_count_refuted. Qed.
+Print Assumptions C08_prims_var_correction_exceeds_count_refuted.
+Theorem C08_prims_var_value_fixed : forall ssd n c, 0 < n -> fval_eq (prims_var_val true ssd n n c) (torch_var_val ssd n c).
+Proof. exact prims_var_val_fixed_correct. Qed.
+Print Assumptions C08_prims_var_value_fixed.
